@@ -189,10 +189,11 @@ def shouldContinueRolling (c : Cfg) (latest : PRev) (observedRel : ObjMap) : Opt
       if !isRollingMethod st.method then none
       else g.names.findSome? (fun n => childHappy c st observedRel latest.desired g n))
 
-/-- `SetCondition(status, cond)` (with the write-back) ; error when `conditions` is not a list -/
+/-- `SetCondition(status, cond)` (with the write-back) ; error when `conditions` is present and not a list - an explicit
+    `null` included (`unstructured.NestedSlice` finds the key and fails the type assertion) -/
 def setCondition (status : KVs) (cond : J) : Except String KVs :=
   match lookup "conditions" status with
-  | none | some .null => .ok (setKey "conditions" (.arr [cond]) status)
+  | none => .ok (setKey "conditions" (.arr [cond]) status)
   | some (.arr xs) =>
       let ty := cond.get? "type"
       if xs.any (fun x => x.isObj && x.get? "type" == ty && (ty.bind J.str?).isSome) then
